@@ -181,6 +181,7 @@ type SwaggerOp struct {
 type Result struct {
 	ID       int               `json:"id"`
 	Swagger  []SwaggerOp       `json:"swagger,omitempty"`
+	DanglingRefs []string      `json:"dangling_refs,omitempty"` // $ref values of the OpenAPI document that name no schema of it
 	Stages   []Stage           `json:"stages"`
 	Img      *Img              `json:"img,omitempty"`
 	Src      []SrcSvcObs       `json:"src,omitempty"`
@@ -188,6 +189,7 @@ type Result struct {
 	Methods  []MethodObs       `json:"methods,omitempty"`
 	Schemas  [][2]string       `json:"schemas,omitempty"`
 	Entities []string          `json:"entities,omitempty"`
+	ClientPkgs []string `json:"client_pkgs,omitempty"` // names of the packages of the client API
 	EntObs   []EntObs          `json:"ent_obs,omitempty"` // entities of the client API: state schema and event names
 	Printed  map[string]string `json:"printed,omitempty"`
 	Extra    map[string]string `json:"extra,omitempty"`
@@ -386,8 +388,56 @@ func clientFromSource(res *Result, api *source_j5pb.API) {
 			return fmt.Errorf("OpenAPI document is not valid JSON")
 		}
 		res.Swagger = swaggerOps(bb)
+		res.DanglingRefs = danglingRefs(bb)
 		return nil
 	})
+}
+
+// danglingRefs lists the "$ref" values of the marshalled OpenAPI document that do not name an entry of
+// components.schemas ("#/components/schemas/<key>" / "#/definitions/<key>").
+func danglingRefs(doc []byte) []string {
+	var top map[string]any
+	if err := json.Unmarshal(doc, &top); err != nil {
+		return nil
+	}
+	schemas := map[string]bool{}
+	if comps, ok := top["components"].(map[string]any); ok {
+		if ss, ok := comps["schemas"].(map[string]any); ok {
+			for k := range ss {
+				schemas["#/components/schemas/"+k] = true
+			}
+		}
+	}
+	if defs, ok := top["definitions"].(map[string]any); ok {
+		for k := range defs {
+			schemas["#/definitions/"+k] = true
+		}
+	}
+	seen := map[string]bool{}
+	var out []string
+	var walk func(v any)
+	walk = func(v any) {
+		switch t := v.(type) {
+		case map[string]any:
+			for k, x := range t {
+				if s, ok := x.(string); ok && k == "$ref" {
+					if !schemas[s] && !seen[s] {
+						seen[s] = true
+						out = append(out, s)
+					}
+					continue
+				}
+				walk(x)
+			}
+		case []any:
+			for _, x := range t {
+				walk(x)
+			}
+		}
+	}
+	walk(top)
+	sort.Strings(out)
+	return out
 }
 
 // swaggerOps reads the operations back from the marshalled document.
@@ -733,6 +783,7 @@ func observeClient(capi *client_j5pb.API, res *Result) {
 		}
 	}
 	for _, p := range capi.Packages {
+		res.ClientPkgs = append(res.ClientPkgs, p.Name)
 		for _, sv := range p.Services {
 			addSvc(sv)
 		}
